@@ -252,8 +252,8 @@ Section Step.
   Inductive sasl :=
   | SNoMech                      (* state.auth.get_server(name) is None *)
   | SStalled (n : N)             (* the client sends nothing more *)
-  | SAuthErr (n : N)             (* AuthenticationError: cancel, base64, invalid response *)
-  | SCrash (n : N)               (* UnicodeDecodeError *)
+  | SAuthErr (n : N)             (* AuthenticationError: cancel, base64, invalid response,
+                                    bytes that are not UTF-8 *)
   | SCreds (authc secret authz : bytes) (n : N).
 
   Definition sasl_exchange (mechs : bool) (mech : bytes) (lines : list cline) : sasl :=
@@ -268,7 +268,7 @@ Section Step.
               match parse_plain d with
               | None => SAuthErr 1
               | Some (zid, cid, secret) =>
-                  if negb utf8 then SCrash 1
+                  if negb utf8 then SAuthErr 1
                   else SCreds cid secret (match zid with [] => cid | _ => zid end) 1
               end
           end
@@ -286,7 +286,7 @@ Section Step.
                   match read_line l2 with
                   | LCancel | LBad64 => SAuthErr 2
                   | LData d2 u2 =>
-                      if negb (u1 && u2) then SCrash 2 else SCreds d1 d2 d1 2
+                      if negb (u1 && u2) then SAuthErr 2 else SCreds d1 d2 d1 2
                   end
               end
           end
@@ -299,7 +299,6 @@ Section Step.
     | SNoMech => ret v b NO WBadMech
     | SStalled n => with_lines (raised v b NOTAG WStalled) n
     | SAuthErr n => with_lines (raised v b BAD WAuthError) n
-    | SCrash n => with_lines (crash v b) n
     | SCreds authc secret authz n => with_lines (do_authenticate v b authc secret authz) n
     end.
 
@@ -473,10 +472,10 @@ Section Step.
         match r_cond r with
         | BAD =>
             let n := (bad + 1)%N in
-            (* the "Too many errors" BYE is attached after the response was
-               written: the connection ends without it *)
+            (* "* BYE Too many errors, disconnecting." is attached to the
+               response that reaches the limit *)
             if limit_reached n || r_bye r
-            then (mk_conn (set_phase v Closed) n, r_b r, o (r_bye r))
+            then (mk_conn (set_phase v Closed) n, r_b r, o true)
             else (mk_conn v n, r_b r, o false)
         | _ =>
             if r_bye r then (mk_conn (set_phase v Closed) 0, r_b r, o true)
